@@ -15,6 +15,7 @@ package keeper
 // C05: DequeueDE returns the head of the queue, removes exactly that entry and advances Head;
 // everything else in the store is untouched (the postcondition gives the whole new store).
 //@ func (k Keeper) DequeueDE
+//@ modifies Store_tss
 //@ requires wfDE(Store_tss, address)
 //@ ensures  err == nil <==> old(DEQ(Store_tss, address).Head < DEQ(Store_tss, address).Tail)
 //@ ensures  err == nil ==> result == old(DEat(Store_tss, address, DEQ(Store_tss, address).Head))
@@ -23,3 +24,21 @@ package keeper
 //@                                        enc(types.DEQueue{old(DEQ(Store_tss, address).Head) + 1, old(DEQ(Store_tss, address).Tail)}))
 //@ ensures  err != nil ==> Store_tss == old(Store_tss)
 //@ ensures  err == nil ==> wfDE(Store_tss, address)
+
+// ---- C04: round-3 confirmation ------------------------------------------------------------------
+//@ spec groupAt(s Store, g Int) types.Group = dec(types.Group, s[types.GroupStoreKey(g)])
+//@ spec memberAt(s Store, g Int, m Int) types.Member = dec(types.Member, s[types.MemberStoreKey(g, m)])
+//@ spec ccCount(s Store, g Int) Int = u64of(s[types.ConfirmComplainCountStoreKey(g)])
+
+// A confirmation is accepted only in round 3, only from the registered address of that member id, only
+// once per member (neither a confirm nor a complaint already recorded) and only with a valid own-key
+// signature; it records the confirm and bumps the counter by exactly one; a rejection changes nothing.
+//@ func (k msgServer) Confirm
+//@ modifies Store_tss
+//@ ensures err == nil ==> old(has(Store_tss, types.GroupStoreKey(req.GroupID))) && old(groupAt(Store_tss, req.GroupID)).Status == types.GROUP_STATUS_ROUND_3
+//@ ensures err == nil ==> old(has(Store_tss, types.MemberStoreKey(req.GroupID, req.MemberID))) && old(memberAt(Store_tss, req.GroupID, req.MemberID)).Address == req.Sender
+//@ ensures err == nil ==> !old(has(Store_tss, types.ConfirmStoreKey(req.GroupID, req.MemberID)))
+//@ ensures err == nil ==> !old(has(Store_tss, types.ComplainsWithStatusStoreKey(req.GroupID, req.MemberID)))
+//@ ensures err == nil ==> has(Store_tss, types.ConfirmStoreKey(req.GroupID, req.MemberID))
+//@ ensures err == nil && old(ccCount(Store_tss, req.GroupID)) < MaxUint64 ==> ccCount(Store_tss, req.GroupID) == old(ccCount(Store_tss, req.GroupID)) + 1
+//@ ensures err != nil ==> Store_tss == old(Store_tss)
